@@ -46,7 +46,17 @@ def generate():
             tgt, value = st.targets[0].id, st.value
         if tgt == "_str_to_modal_mark_mapping":
             if not isinstance(value, ast.Dict):
-                raise Untranslatable("_str_to_modal_mark_mapping is not a dict literal")
+                # not a literal (e.g. built from the enum): take the dict object of the loaded module -- data, like the loaded grammar
+                from vlib import impl  # noqa: F401
+                import ahbicht.content_evaluation  # noqa: F401  (import order: avoids the circular import of the expressions package)
+                from ahbicht.expressions import ahb_expression_evaluation as loaded
+                from ahbicht.models.enums import ModalMark
+
+                obj = getattr(loaded, "_str_to_modal_mark_mapping", None)
+                if not isinstance(obj, dict) or not all(isinstance(k, str) and isinstance(v, ModalMark) and v.name in mm for k, v in obj.items()):
+                    raise Untranslatable("_str_to_modal_mark_mapping is neither a dict literal nor a loaded dict of str -> ModalMark")
+                mapping = [(k, v.name) for k, v in obj.items()]
+                continue
             mapping = []
             for k, v in zip(value.keys, value.values):
                 if not (isinstance(k, ast.Constant) and isinstance(k.value, str) and isinstance(v, ast.Attribute)
